@@ -1,9 +1,31 @@
 import P2.Props.C03
 import P2.Props.C07b
-/- C02 first increment: acceptance forces the quotient identity for the recomputed challenges
-(C03.verify_accept_iff) and a gate output changed alone makes its gate constraint non-zero (C07). -/
+import P2.Props.C02b
 #print axioms P2.Props.C03.verify_accept_iff
 #print axioms P2.Props.C07.replace_pins_sub
 #print axioms P2.Props.C07.arithmetic_pinned
 #print axioms P2.Props.C07.arithmetic_sat_iff
 #print axioms P2.Props.C07.count_all
+#print axioms P2.Props.C02.computeFilter_eq_zero_iff
+#print axioms P2.Props.C02.computeFilter_self_ne_zero
+#print axioms P2.Props.C02.filters_disjoint
+#print axioms P2.Props.C02.filter_unused_eq_zero
+#print axioms P2.Props.C02.computeFilter_unused_single_partial
+#print axioms P2.Props.C02.hinj_of_charZero
+#print axioms P2.Props.C02.hinj_of_charP
+#print axioms P2.Props.C02.reduceWithPowers_eq_sum
+#print axioms P2.Props.C02.reduceWithPowers_eq_sum_range
+#print axioms P2.Props.C02.reduceWithPowers_eq_eval
+#print axioms P2.Props.C02.reduceWithPowers_zeros_card
+#print axioms P2.Props.C02.reduceWithPowers_zero_set
+#print axioms P2.Props.C02.terms_zero_of_many_zeros
+#print axioms P2.Props.C02.checkPartialProducts_all_zero_iff
+#print axioms P2.Props.C02.chunksOf_spec
+#print axioms P2.Props.C02.checkPartialProducts_sound
+#print axioms P2.Props.C02.checkPartialProducts_sound_prefix
+#print axioms P2.Props.C02.checkPartialProducts_sound_div
+#print axioms P2.Props.C02.checkPartialProducts_complete
+#print axioms P2.Props.C02.evalL0_root
+#print axioms P2.Props.C02.evalL0_mul
+#print axioms P2.Props.C02.evalL0_of_pow_eq_one
+#print axioms P2.Props.C02.evalL0_one
